@@ -26,6 +26,12 @@ oracle:         the FULL FAULT MATRIX on the real code (both tiers, complete): X
                 instructions of the prolog that hold `<name`, `"`, `'`, `>`, `]` wherever the XML grammar allows - the input class
                 that exposed the defect repaired in /repo e859a9c: `__fixXmlPart` spliced its xmlns declarations into an entity
                 literal, the parse error was only printed, load() returned) x entry point x member, embedded objects included.
+                AND WITH A DOCTYPE OF A REAL (LEGACY) PRODUCER (run_legacy, prologs.LEGACY: PUBLIC / SYSTEM identifiers of OpenOffice.org 1.x,
+                W3C, OASIS x internal subsets that declare entities x DOCTYPE name) x entry point x member.
+                AND WITH A SECOND DEFECT IN THE PACKAGE (run_pairs: another part listed but missing from the zip / empty / truncated / not
+                well-formed; every ordered pair of parts of the main document and of an embedded object; every entry point): the
+                entity-declaring member must still be refused.  Model: lean/OdfModel/EntityDamage.lean (readD; drv_entity `readdmg`),
+                theorems lean/OdfModel/Props/C13Pair.lean (pair_refuses_partial, pair_explicit_partial, refuses_with_missing_parts_partial).
 proof (Prep):   lean/OdfModel/Props/C13Prep.lean: the hypothesis `Prep` of the refusal theorems instantiated with the model of
                 `__fixXmlPart` (fix_keeps_prolog_at, fix_keeps_doctype_facts, fixed_text_refused, prepOfFix, C13_full_fix) through
                 Props/C05.lean fix_prolog_untouched; the model is tied to the code by the `fixxml` correspondence of harness/c05.py
@@ -864,6 +870,238 @@ def run_slow(chk, parsed):
         shutil.rmtree(tmp, ignore_errors=True)
 
 
+# ---------------------------------------------------------------------------------------------------------------
+# the dimension DOCTYPE OF A REAL PRODUCER (prologs.LEGACY): external identifiers as OpenOffice.org 1.x, W3C and OASIS vocabularies
+# carry them, each combined with an internal subset that declares entities.  The property does not depend on what else the
+# document type declaration says: the entry point takes the member in => explicit refusal.
+# ---------------------------------------------------------------------------------------------------------------
+def legacy_package(target, shape, tok):
+    mem = []
+    for name, data in template():
+        if name == target:
+            data = prologs.apply_legacy(data.replace(TXT, u'&e;'), DECL, shape, tok.declared, tok.file_url, tok.dtd_url)
+        mem.append((name, data))
+    return mem
+
+
+def legacy_cell(chk, drv, tok, watch, pkgargs, parses, prep, ep, m, shape):
+    shape = tuple(shape)
+    mem = legacy_package(m, shape, tok)
+    sname = prologs.legacy_name(shape)
+    declares = prologs.legacy_declares(shape)
+    case = {'ep': ep, 'member': m, 'kind': 'ent-text' if declares else 'ext-dtd', 'legacy': list(shape)}
+    if prep is not None:
+        prep.check(case, m, dict(mem)[m], strict=True)
+    o = observe(ep, build(mem), tok, watch)
+    c = cls(o)
+    part, where = member_class(m)
+    must = parses or required(ep, m, MANIFEST_ENTRIES)
+    chk.count('legacy-cell')
+    chk.count('legacy-cell.' + c + ('' if must else '.member-not-parsed'))
+    for dim, v in zip(('id', 'subset', 'name'), shape):
+        chk.count('legacy.%s.%s' % (dim, v))
+    chk.case((ep, m, 'legacy:' + sname), nontrivial=bool(must),
+             sample=dict(case, observed=c, exception=o['defused'] or o['exc']) if (len(chk.samples) < 8 and chk.rng.random() < 0.004) else None)
+    sig = '%s:%s@%s:legacy-doctype%s' % (ep, part, where, '' if declares else '-alone')
+    if o['expanded'] or o['canary']:
+        report(chk, sig, case, 'the result contains the expanded entity text / the canary')
+    elif o['touched']:
+        report(chk, sig, case, 'an external resource was opened: %s' % o['touched'][:2])
+    elif must and c != 'forbidden':
+        what = ('its DOCTYPE carries the external identifier %s and an internal subset (%s) that declares entities' % (shape[0], shape[1])) \
+            if declares else ('its DOCTYPE names the external DTD subset of a legacy producer (%s)' % shape[0])
+        if o['outcome'] == 'returned':
+            report(chk, sig + ':silent', case, 'the entry point takes this member in, %s, and the call returned normally: no explicit exception%s' %
+                   (what, '; the parse failure was only printed' if o['sax_failed_printed'] else ''))
+        else:
+            report(chk, sig + ':not-explicit', case, '%s; raised %s, which is not (and does not wrap) a defusedxml refusal' % (what, o['exc']))
+    elif not must and c != 'clean':
+        chk.corr_diff(case, c, 'clean', 'member is not parsed by this entry point yet the call did not return normally')
+    if drv is not None:
+        ans = drv.ask('read %d %s %d %d %s' % (EP_CODE[ep], enc_str(m), 1 if declares else 0, 1, pkgargs))
+        chk.corr()
+        got = c if c != 'forbidden' else 'forbidden:' + str(o['defused'])
+        want = {'err forbidden-entities': 'forbidden:EntitiesForbidden', 'err forbidden-external': 'forbidden:ExternalReferenceForbidden',
+                'ok clean': 'clean', 'ok expanded': 'expanded'}.get(ans.strip(), ans)
+        if got != want:
+            chk.corr_diff(case, got, ans, 'outcome of the cell (legacy DOCTYPE %s)' % sname)
+    return o
+
+
+def run_legacy(chk, drv, prep, parsed):
+    """legacy DOCTYPE (external identifier x internal subset x DOCTYPE name) x entry point x XML member.  thorough: every cell of the
+    members an entry point takes in; quick: 4 consecutive shapes per (entry point, member taken in), walking through all shapes"""
+    watch = Watch.install()
+    tmp = tempfile.mkdtemp(prefix='c13-')
+    try:
+        tok = Tokens(chk.rng, tmp)
+        pkgargs = model_pkg_args()
+        L = prologs.LEGACY
+        offset = chk.rng.randrange(len(L))
+        n = 0
+        for ep in EPS:
+            for m in XML_MEMBERS:
+                must = bool(parsed.get((ep, m))) or required(ep, m, MANIFEST_ENTRIES)
+                if not must:
+                    continue
+                per = len(L) if chk.tier == 'thorough' else 4
+                for j in range(per):
+                    legacy_cell(chk, drv, tok, watch, pkgargs, bool(parsed.get((ep, m))), prep, ep, m, L[(offset + n * per + j) % len(L)])
+                n += 1
+    finally:
+        watch.needles = []
+        shutil.rmtree(tmp, ignore_errors=True)
+
+
+# ---------------------------------------------------------------------------------------------------------------
+# TWO DEFECTS IN ONE PACKAGE: one XML part is damaged (listed in the manifest but missing from the zip; empty; truncated; not
+# well-formed) AND another part declares entities.  The property speaks about every XML member on its own: whatever state the
+# OTHER members are in, a member the entry point takes in and that declares entities makes the call fail with an explicit exception
+# (the refusal - or, where the damaged part alone already makes this entry point fail, that very failure).
+# ---------------------------------------------------------------------------------------------------------------
+DAMAGES = ['missing', 'malformed', 'empty', 'truncated', 'truncated-decl', 'bad-end-tag']
+PAIR_DOCS = [u'', u'Object 1/']
+PAIR_LEAVES = [u'settings.xml', u'meta.xml', u'content.xml', u'styles.xml']
+PAIR_KINDS = ['ent-text', 'ext-general-file', 'ent-unused', 'ext-param-file', 'ent-attr', 'nested', 'ext-dtd-file', 'quadratic',
+              'ext-general-http', 'ext-param-http', 'ext-dtd-http', 'ext-general-attr-file']
+
+
+def damage(text, how):
+    """the damaged form of a member text (None: the member is left out of the zip, its manifest entry stays)"""
+    if how == 'missing':
+        return None
+    if how == 'empty':
+        return b''
+    if how == 'truncated':
+        return text[:(2 * len(text)) // 3]
+    if how == 'truncated-decl':
+        return text[:20]
+    if how == 'malformed':
+        return DECL + u'<office:broken <<< ' + text[len(DECL):]
+    if how == 'bad-end-tag':
+        i = text.rindex(u'</')
+        return text[:i] + u'</office:wrong>'
+    raise ValueError(how)
+
+
+def pair_package(dmember, how, emember, kind, tok):
+    mem = []
+    for name, data in template():
+        if name == dmember:
+            data = damage(data, how)
+            if data is None:
+                continue
+        elif name == emember and kind is not None:
+            data = inject(data, kind, tok)
+        mem.append((name, data))
+    return mem
+
+
+def pair_cell(chk, drv, tok, watch, parsed, ctrl, ep, dmember, how, emember, k):
+    key = (ep, dmember, how)
+    if key not in ctrl:                     # what the damaged part ALONE does to this entry point
+        oc = observe(ep, build(pair_package(dmember, how, None, None, tok)), tok, watch)
+        ctrl[key] = oc['exc']
+        chk.count('pair-control.' + ('returned' if oc['exc'] is None else 'raised'))
+    mem = pair_package(dmember, how, emember, k, tok)
+    o = observe(ep, build(mem), tok, watch)
+    c = cls(o)
+    case = {'ep': ep, 'member': emember, 'kind': k, 'damaged': dmember, 'damage': how}
+    must = bool(parsed.get((ep, emember))) or required(ep, emember, MANIFEST_ENTRIES)
+    part, where = member_class(emember)
+    by_damage = (c == 'raised-other' and ctrl[key] is not None and o['exc'] == ctrl[key])
+    chk.count('pair-cell')
+    chk.count('pair-cell.%s.%s' % (how, 'failed-on-the-damaged-part' if by_damage else c) + ('' if must else '.member-not-parsed'))
+    chk.case((ep, emember, k, 'damaged:' + dmember, how), nontrivial=bool(must) and ctrl[key] is None,
+             sample=dict(case, observed=c, exception=o['defused'] or o['exc']) if (len(chk.samples) < 8 and chk.rng.random() < 0.004) else None)
+    sig = '%s:%s@%s:%s:other-part-%s' % (ep, part, where, KIND_CLASS[k], how)
+    if o['expanded'] or o['canary']:
+        report(chk, sig, case, 'the result contains the expanded entity text / the canary')
+    elif o['touched']:
+        report(chk, sig, case, 'the external resource named by the document was opened: %s' % o['touched'][:2])
+    elif must and c != 'forbidden' and not by_damage:
+        if o['outcome'] == 'returned':
+            report(chk, sig + ':silent', case, 'the entry point takes %s in, its DOCTYPE %s, and the call returned normally although - %s of the same '
+                   'package being %s does not change that - it has to be refused%s' %
+                   (emember, 'names an external DTD subset' if KIND_FLAGS[k] == (0, 1) else 'declares entities', dmember, how,
+                    '; a parse failure was only printed' if o['sax_failed_printed'] else ''))
+        else:
+            report(chk, sig + ':not-explicit', case, 'raised %s, which is neither a defusedxml refusal nor what %s being %s alone raises (%s)' %
+                   (o['exc'], dmember, how, ctrl[key]))
+    # -- correspondence: a listed member that is absent from the zip is inside the model's domain (readList / skipsMissing)
+    if drv is not None and how == 'missing':
+        files = [nm for nm, _ in mem]
+        mans = [p_ for p_, _ in MANIFEST_ENTRIES] + [u'extra/' + ATT]
+        ans = drv.ask('read %d %s %d %d %d %s %d %s' % ((EP_CODE[ep], enc_str(emember)) + KIND_FLAGS[k] + (
+            len(files), ' '.join(enc_str(f) for f in files), len(mans), ' '.join(enc_str(x) for x in mans))))
+        chk.corr()
+        got = c if c != 'forbidden' else 'forbidden:' + str(o['defused'])
+        if c == 'raised-other' and o['exc'] == 'KeyError':
+            got = 'missing'
+        want = {'err forbidden-entities': 'forbidden:EntitiesForbidden', 'err forbidden-external': 'forbidden:ExternalReferenceForbidden',
+                'err missing': 'missing', 'ok clean': 'clean', 'ok expanded': 'expanded'}.get(ans.strip(), ans)
+        if got != want:
+            chk.corr_diff(case, got + ' ' + str(o['exc'] or ''), ans, 'outcome of the cell (%s listed but missing from the zip)' % dmember)
+    # -- correspondence: a member that is not well-formed (OdfModel.EntityDamage.readD)
+    if drv is not None and how != 'missing':
+        ans = drv.ask('readdmg %d %s %d %d %s %s' % ((EP_CODE[ep], enc_str(emember)) + KIND_FLAGS[k] + (enc_str(dmember), model_pkg_args())))
+        chk.corr()
+        got = c if c != 'forbidden' else 'forbidden:' + str(o['defused'])
+        if c == 'raised-other' and o['exc'] in ('SAXParseException', 'ExpatError'):
+            got = 'not-well-formed'
+        want = {'err forbidden-entities': 'forbidden:EntitiesForbidden', 'err forbidden-external': 'forbidden:ExternalReferenceForbidden',
+                'err not-well-formed': 'not-well-formed', 'ok clean': 'clean', 'ok expanded': 'expanded'}.get(ans.strip(), ans)
+        if got != want:
+            chk.corr_diff(case, got + ' ' + str(o['exc'] or ''), ans, 'outcome of the cell (%s not well-formed: %s)' % (dmember, how))
+    return o
+
+
+def pair_cells(chk, parsed):
+    """[(ep, damaged member, damage, entity-declaring member, kind)].  Ordered pairs of DIFFERENT parts over the main document and
+    `Object 1/` (same document and across), the manifest as the entity-declaring member, the two members of the MoinMoin converter.
+    thorough: every pair x every damage x every loader-based entry point, three kinds each (rotating through all);
+    quick: every same-document ordered pair x every damage, every cross-document pair once, entry point and kind rotating"""
+    members = [d + l for d in PAIR_DOCS for l in PAIR_LEAVES]
+    same = [(a, b) for a in members for b in members if a != b and a.rpartition(u'/')[0] == b.rpartition(u'/')[0]]
+    cross = [(a, b) for a in members for b in members if a.rpartition(u'/')[0] != b.rpartition(u'/')[0]]
+    out = []
+    i = chk.rng.randrange(60)
+    if chk.tier == 'thorough':
+        for ep in LOADLIKE:
+            for a, b in same + cross + [(a, MANIFEST) for a in members]:
+                for how in DAMAGES:
+                    for j in range(3):
+                        i += 1
+                        out.append((ep, a, how, b, PAIR_KINDS[i % len(PAIR_KINDS)]))
+    else:
+        for a, b in same:
+            for how in DAMAGES:
+                i += 1
+                out.append((LOADLIKE[i % len(LOADLIKE)], a, how, b, PAIR_KINDS[(i // len(LOADLIKE)) % len(PAIR_KINDS)]))
+        for a, b in cross + [(a, MANIFEST) for a in members[::3]]:
+            i += 1
+            out.append((LOADLIKE[i % len(LOADLIKE)], a, DAMAGES[i % len(DAMAGES)], b, PAIR_KINDS[(i // 5) % len(PAIR_KINDS)]))
+    for a, b in ((u'styles.xml', u'content.xml'), (u'content.xml', u'styles.xml'), (u'meta.xml', u'content.xml')):
+        for how in DAMAGES:
+            i += 1
+            for k in (PAIR_KINDS if chk.tier == 'thorough' else [PAIR_KINDS[i % len(PAIR_KINDS)]]):
+                out.append(('ODF2MoinMoin', a, how, b, k))
+    return out
+
+
+def run_pairs(chk, drv, parsed):
+    watch = Watch.install()
+    tmp = tempfile.mkdtemp(prefix='c13-')
+    try:
+        tok = Tokens(chk.rng, tmp)
+        ctrl = {}
+        for ep, a, how, b, k in pair_cells(chk, parsed):
+            pair_cell(chk, drv, tok, watch, parsed, ctrl, ep, a, how, b, k)
+    finally:
+        watch.needles = []
+        shutil.rmtree(tmp, ignore_errors=True)
+
+
 LAYOUT_EPS = ['load', 'manifestlist', 'UserFields.list_fields', 'ODF2XHTML.odf2xhtml', 'ODF2MoinMoin']
 
 
@@ -1197,6 +1435,22 @@ def run(chk, replay=None):
             shutil.rmtree(tmp, ignore_errors=True)
         print('replay: %s -> %s' % (c, o))
         return 1 if (chk.failures or chk.known_hits) else 0
+    if replay is not None and ('legacy' in replay['input'] or 'damage' in replay['input']):
+        c = replay['input']
+        watch = Watch.install()
+        tmp = tempfile.mkdtemp(prefix='c13-')
+        try:
+            tok = Tokens(chk.rng, tmp)
+            if 'legacy' in c:
+                o = legacy_cell(chk, None, tok, watch, None, True, None, c['ep'], c['member'], c['legacy'])
+                print('member text: %r' % dict(legacy_package(c['member'], tuple(c['legacy']), tok))[c['member']][:400])
+            else:
+                o = pair_cell(chk, None, tok, watch, {(c['ep'], c['member']): True}, {}, c['ep'], c['damaged'], c['damage'], c['member'], c['kind'])
+        finally:
+            watch.needles = []
+            shutil.rmtree(tmp, ignore_errors=True)
+        print('replay: %s -> %s' % (c, o))
+        return 1 if (chk.failures or chk.known_hits) else 0
     if replay is not None and 'media' in replay['input']:
         c = replay['input']
         watch = Watch.install()
@@ -1245,7 +1499,7 @@ def run(chk, replay=None):
     for s in inv['sites']:
         chk.count('site.' + ('library' if s['library'] else 'script') + '.' + s['origin_name'])
     # 2 prove
-    ok = chk.prove(modules=['OdfModel.Props.C13', 'OdfModel.Props.C13Enc', 'OdfModel.Props.C13Prep'], drivers=['drv_entity'])
+    ok = chk.prove(modules=['OdfModel.Props.C13', 'OdfModel.Props.C13Enc', 'OdfModel.Props.C13Prep', 'OdfModel.Props.C13Pair'], drivers=['drv_entity'])
     if not ok:
         chk.lake(['build', 'drv_entity'])
     chk.assumptions.append('C13: behaviour of the two parser kinds (defusedxml raises on an entity declaration / external '
@@ -1276,6 +1530,8 @@ def run(chk, replay=None):
                            'finds is the XML prolog (PrologAt, decidable; false only for texts that are not XML in front of the root); (c) model = '
                            'code: fixxml correspondence of C05 and, here, the real function on every member text of the fault matrix and of '
                            'the prolog-shape matrix (%d distinct texts; on every prolog shape it must return the text unchanged)' % len(prep.seen))
+    run_legacy(chk, drv, prep, parsed)
+    run_pairs(chk, drv, parsed)
     run_media(chk, drv)
     run_encodings(chk, drv, parsed)
     chk.assumptions.append('C13: a parser refuses an entity declaration in whatever character encoding the member is written (ParserBehaviour is '
